@@ -25,11 +25,19 @@ func VerifH_c16_session() {
 	cs := vNewClientOn(disp)
 	vNewClientOn(disp) // a second connection exists
 	i := vChoice("cmd", len(vSessionCommands))
-	if vBool("in-multi") && vSessionCommands[i][0] != "MULTI" {
+	inMulti := vBool("in-multi") && vSessionCommands[i][0] != "MULTI"
+	if inMulti {
 		vCmd(cs, "MULTI")
 	}
 	vFieldLogBegin(vSessionLabel(i), cs)
-	panicked, _ := vCatch(func() { vCmd(cs, vSessionCommands[i]...) })
+	panicked, _ := vCatch(func() {
+		vCmd(cs, vSessionCommands[i]...)
+		if inMulti && cs.cmdQueue != nil {
+			// the queued command runs inside EXEC, under the transaction's
+			// ownership of the database
+			vCmd(cs, "EXEC")
+		}
+	})
 	vFieldLogEnd()
 	vAssert("session-command-no-panic", !panicked)
 }
